@@ -99,6 +99,9 @@ def op_strategy(depth=2):
                                     "to": pt})
     ctx = st.fixed_dictionaries({"op": st.just("ctx"),
                                  "kind": st.sampled_from(["absolute_mode", "relative_mode"]),
+                                 # the body starts by switching the mode itself: the
+                                 # context still has to put back the mode found on entry
+                                 "flip": st.booleans(),
                                  "body": st.lists(st.one_of(op_strategy(depth - 1), bypass),
                                                   max_size=3)})
     return st.one_of(prim, prim, prim, prim, ctx)
@@ -163,6 +166,9 @@ class Exec:
                 saved = self.rel
                 with getattr(g, op["kind"])():
                     self.rel = op["kind"] == "relative_mode"
+                    if op.get("flip"):
+                        self.rel = not self.rel
+                        g.set_distance_mode("relative" if self.rel else "absolute")
                     self.collect()
                     self.run(op["body"])
                 self.rel = saved
@@ -305,6 +311,8 @@ def run_case(case, cl=None):
         cl.add("shape:" + o["op"])
     if any(o["op"] == "ctx" for o in flatten(case["ops"])):
         cl.add("mode_context")
+    if any(o["op"] == "ctx" and o.get("flip") for o in flatten(case["ops"])):
+        cl.add("mode_switched_inside_a_mode_context")
     if case.get("xform"):
         cl.add("transform_active")
     if any(o["op"] == "set_axis" for o in flatten(case["ops"])):
